@@ -111,6 +111,12 @@ fn case_line(t: &mut Tape, st: &mut Stats) -> Verdict {
             st.class("parsed-right-after-a-refused-text");
         }
     }
+    // ... nor on what a script that ran earlier on this thread spread-bound: one case in eight of the lines holding a
+    // backslash first has variables spread (`%{v}`) that hold the very argument text of this line
+    if text.contains('\\') && t.chance(1, 8) {
+        crate::hz::spread_tails_on_this_thread(&text);
+        st.class("parsed-after-a-spread-of-the-same-argument-text");
+    }
     let parsed = parser::parse_text(&text);
     let r = match parsed {
         Err(e) => Err(format!("error {:?}", e)),
